@@ -140,6 +140,19 @@ def setOpt (o : Bool) : NAnn → NAnn
   | .list i _ => .list i o
 end NAnn
 
+/-- annotation language of generated *result* classes, in normal form; a class is inlined as the
+    list of its fields (response key = alias, annotation) -/
+inductive RAnn where
+  | leaf (l : Leaf) (opt : Bool)
+  | list (item : RAnn) (opt : Bool)
+  | obj (fields : List (String × RAnn)) (opt : Bool)
+  deriving Inhabited
+
+/-- one `parse(raw)` call -/
+structure ParseCall where
+  fn : String
+  raw : J
+
 /-- `generate_result_scalar_annotation` (before the caller's `Optional[...]`) -/
 def resultLeaf (d : ScalarData) : Leaf :=
   match d.parseName with
